@@ -303,7 +303,7 @@ def replay_bookkeeping(inputs):
     n_sites = inputs['n_sites']
     labels = inputs['labels']
     bad = []
-    tr = make_transitions(states, n_sites=n_sites, labels=labels)
+    tr = make_transitions(states, n_sites=n_sites, labels=labels, sheared=bool(inputs.get('sheared')), seed=int(inputs.get('lat_seed', 0)))
     T, N = states.shape
     # occupancy
     occ = tr.occupancy()
@@ -358,7 +358,8 @@ def replay_bookkeeping(inputs):
         bad.append('graph nodes are not the sites')
     lat = tr.trajectory.get_lattice()
     fc = tr.sites.frac_coords
-    pd_ = lat.get_all_distances(fc, fc)
+    from verif.native.synth import brute_mindist
+    pd_ = brute_mindist(lat.matrix, fc, fc, rng=3)  # independent oracle: explicit image search in Cartesian space
     for dim in (1, 2, 3):
         expect = sum(pd_[a, b] ** 2 for a, b in rows) * 1e-20 / (2 * dim * N * (T * tr.trajectory.time_step))
         got = float(jumps.jump_diffusivity(dim))
@@ -392,7 +393,7 @@ def bounded_bookkeeping(tier, seed):
         if (states == states[0]).all():
             free = [k for k in range(-1, S) if k != states[0, 0] and (k == -1 or k not in states[-1, 1:])]
             states[-1, 0] = free[0]
-        inp = {'states': states.tolist(), 'n_sites': S, 'labels': labels}
+        inp = {'states': states.tolist(), 'n_sites': S, 'labels': labels, 'sheared': c % 2 == 1, 'lat_seed': c}
         r = st.guard(replay_bookkeeping, inp)
         if r is None:
             continue
